@@ -23,7 +23,8 @@ LEVEL = "proof"
 EXPLANATION = ("reconstruction invariance for every power, unitarity consequences for Varimax (orthonormal normalised scores, "
                "summed explained variance), joint re-ordering of all mode-indexed results by the same permutation and the sign "
                "convention applied to scores and components alike are discharged on the real EOFRotator against the promax "
-               "contract; the promax/varimax iteration itself, the cross-set rotators and the Varimax criterion are bounded runs")
+               "contract, and that contract is discharged on the real promax wrapper and the numpy kernels _promax / _varimax (loop rule: the "
+               "rotation matrix stays unitary through every iteration); convergence, the Varimax criterion and the cross-set rotators are bounded runs")
 
 
 def deductive(res, agg):
@@ -251,13 +252,17 @@ def run(tier, seed):
     res.functions = ["xeofs.single.eof_rotator:EOFRotator.__init__", "EOFRotator._fit_algorithm", "EOFRotator._compute_rot_mat_inv_trans",
                      "EOFRotator._post_compute", "EOFRotator._sort_by_variance", "EOFRotator._transform_algorithm",
                      "xeofs.single.eof:EOF.explained_variance", "xeofs.data_container.data_container:DataContainer.add"]
-    res.assumptions = ["contract of promax/_promax/_varimax (rotated = loadings R, R invertible, unitary for power 1) is ASSUMED at the call site; the iteration itself is exercised by the bounded runs only (convergence / Varimax criterion are not contract-decidable here)",
+    res.functions += ["xeofs.linalg.rotation:promax", "xeofs.linalg._numpy._rotation:_promax", "xeofs.linalg._numpy._rotation:_varimax"]
+    res.assumptions = ["the promax contract used at the rotators' call site (rotated = loadings T, T invertible, unitary for power 1, phi = inv(T) inv(T)^H) is DISCHARGED on the real promax wrapper, _promax and _varimax (vf/contracts/rotkernel.py): _varimax's iteration by the loop rule with the invariant 'R unitary' for every number of iterations; element-wise parts of the Varimax / Procrustes criteria abstracted to unconstrained matrices; convergence and optimality of the Varimax criterion are not contract-decidable here (bounded runs only)",
+                       "kernel assumptions: eps stabiliser read as 0, no zero row / column in the loadings (communalities and column maxima > 0), the matrices the kernel inverts are invertible, np.linalg.svd contract",
                        "precondition: retained singular values > 0 and rotated loadings have non-zero columns (the code divides by them)",
                        "argsort_dask / np.linalg.inv / sign-multiplier contracts assumed", "float arithmetic exact; machine-eps stabilisers in _varimax/_promax read as 0",
                        "cross-set rotators (CPCCARotator family): bounded only"]
     res.trusted = ["CPython on proxies", "vf/sym normaliser", "z3", "xarray semantics as modelled"]
     agg = Agg(res, "C11")
     deductive(res, agg)
+    from vf.contracts import rotkernel
+    rotkernel.obligations(res, agg)
     agg.flush()
     run_bounded(res, tier, seed)
     return res
